@@ -415,7 +415,7 @@ func (fr *Frame) step(in ssa.Instruction, st *State, g Term) {
 			fr.regs[i] = TV{T: x.fresh("ext", tc.sortOf(i.Type()))}
 			return
 		}
-		fr.regs[i] = tup[i.Index]
+		fr.setReg(i, tup[i.Index], st)
 	case *ssa.MakeClosure:
 		var bind []Val
 		for _, b := range i.Bindings {
